@@ -339,13 +339,12 @@ func (t Token) Float32() (float32, bool) {
 			return float32(f), true
 		}
 	case numberValue:
-		n, err := strconv.ParseFloat(t.str, 64)
-		if err == nil {
-			// Overflows are treated as (-)infinity.
-			return float32(n), true
-		}
-		nerr := err.(*strconv.NumError)
-		if nerr.Err == strconv.ErrRange {
+		_, err := strconv.ParseFloat(t.str, 64)
+		if err == nil || err.(*strconv.NumError).Err == strconv.ErrRange {
+			// Parse at float32 precision: narrowing the 64-bit result
+			// would round a second time. Overflows are treated as
+			// (-)infinity, as the conversion did.
+			n, _ := strconv.ParseFloat(t.str, 32)
 			return float32(n), true
 		}
 	}
